@@ -492,9 +492,9 @@ def parse_template(path):
                 elif key in ("rewrite", "rewrite*"):
                     rule, frm, to = [x.strip() for x in val.split(" | ")]
                     spec["rewrites"].append((rule, frm.replace("\\n", "\n"), to, key.endswith("*")))
-                elif key == "rewrite-re":
+                elif key in ("rewrite-re", "rewrite-re?"):
                     rule, frm, to = [x.strip() for x in val.split(" | ")]
-                    spec.setdefault("rewrites_re", []).append((rule, frm, to))
+                    spec.setdefault("rewrites_re", []).append((rule, frm, to, key.endswith("?")))
                 elif key == "insert":
                     pos, anchor, text = [x.strip() for x in val.split(" | ", 2)]
                     spec["inserts"].append((pos, anchor, text))
@@ -644,8 +644,10 @@ def generate(unit, template_path, canary=False):
             body = rule_R4(body, g.rewrites, where)
             for rule, frm, to, allocc in spec["rewrites"]:
                 body = apply_rewrite(body, rule, frm, to, allocc, g.rewrites, where)
-            for rule, frm, to in spec.get("rewrites_re", []):
+            for rule, frm, to, optional in spec.get("rewrites_re", []):
                 new_body, cnt = re.subn(frm, to, body)
+                if cnt == 0 and optional:
+                    continue
                 if cnt == 0:
                     raise AnchorLost(f"{where}: rewrite-re {rule} pattern not found: `{frm}`")
                 g.rewrites.append({"rule": rule, "where": where, "before": "/" + frm + "/", "after": to, "count": cnt})
